@@ -79,7 +79,7 @@ def run(ctx):
         rnd.shuffle(classes)
         classes = [c for c in classes if c['par']['star']][:150] + [c for c in classes if not c['par']['star']][:300]
     scens = [scenario(c, random.Random(ctx.seed * 7919 + i)) for i, c in enumerate(classes)]
-    out = cachesim.run_scenarios_stores(ctx, tree, scens, 6, disk_sample=40)
+    out = cachesim.run_scenarios_stores(ctx, tree, scens, 6, disk_sample=60, prefer=lambda sc: sc['par']['star'])   # Vary: * entries read back from a cache_dir
     hist = [{'ev': cachesim.strip_for_tlc(ev)} for _, ev in out]
     rej = escen.validate(ctx, os.path.join(SPEC, 'Trace_VaryCache.tla'), os.path.join(SPEC, 'Trace_VaryCache.cfg'), hist, 'vary')
     ctx.log('realised %d scenarios; P-rejected %d' % (len(out), len(rej)))
